@@ -1,0 +1,31 @@
+// Copyright (C) 2024, Ava Labs, Inc. All rights reserved.
+// See the file LICENSE for licensing terms.
+
+//go:build !verif
+
+// Package verifhook provides scheduling and fault-injection seams for
+// deterministic simulation. Without the "verif" build tag every function in
+// this package is an empty, inlinable no-op.
+package verifhook
+
+// Enabled reports whether the hooks are compiled in.
+const Enabled = false
+
+type Locker interface {
+	TryLock() bool
+	Unlock()
+}
+
+type RLocker interface {
+	TryRLock() bool
+	RUnlock()
+}
+
+func Yield(string)                       {}
+func YieldK(string, uint64)              {}
+func AwaitLock(string, uint64, Locker)   {}
+func AwaitRLock(string, uint64, RLocker) {}
+func Fault(string, string) error         { return nil }
+func FS(string) any                      { return nil }
+func H(string) uint64                    { return 0 }
+func HB([]byte) uint64                   { return 0 }
